@@ -7,6 +7,7 @@
 #include <unistd.h>
 #include <signal.h>
 #include <sys/wait.h>
+#include <sys/prctl.h>
 #include <sys/mman.h>
 #include <errno.h>
 
@@ -342,6 +343,7 @@ void par_run(long n, workfn f, void *arg, struct res *tot) {
         pid[w] = fork();
         if (pid[w] < 0) { perror("fork"); exit(3); }
         if (pid[w] == 0) {
+            prctl(PR_SET_PDEATHSIG, SIGKILL);        /* a worker never outlives a parent that was killed for running too long */
             close(fds[w][0]);
             G_cur = cur_slots + w * 2000;
             struct res *r = calloc(1, sizeof *r);
